@@ -21,9 +21,8 @@ ASSUMPTIONS = [
     'partition_iterator: partition_size >= 1; group_into_tensor_product_basis_sets: coefficients are 0 or dyadic with |c| >= 1e-8 (exact regime)',
 ]
 OPEN_STATEMENTS = [
-    'pws_covers (pair_within_simultaneously and the binned / symmetric variants: every admissible 4 labels have a co-scheduled split; every yield is a partial matching): open as a theorem (multi-level case analysis over the partition tree with wrap-around generators); checked by the Spec oracle and an independent brute force for every label count <= 26 / 48 and on random bin sizes.',
-    '_asynchronous_iter Latin-square coverage: open as a theorem; Spec oracle asyncCovers on random iterator lists.',
-    'tpb_groups_spec is proved under the hypothesis PermsCover (every shuffle lists each current basis at least once — true for genuine permutations); that numpy.random.RandomState.shuffle produces a permutation is part of the trusted base (the recorded shuffles are checked to reproduce the unpatched call).',
+    'Every clause of the property is a theorem about the Model; outside the theorems: tpb_groups_spec is proved under the hypothesis PermsCover (every shuffle lists each current basis at least once — true for genuine permutations); that numpy.random.RandomState.shuffle produces a permutation is part of the trusted base (the recorded shuffles are checked to reproduce the unpatched call).',
+    'binary_partition_iterator / partition_iterator with an explicit num_iterations argument (not the default) are covered by correspondence only (the theorems are about the default, which is what the property states).',
 ]
 
 
@@ -196,7 +195,7 @@ def stream_pair_within(ctx, fp):
                'yields compared in order with the Model; Spec: every yield is a perfect matching (one bare label when the '
                'length is odd) and all unordered pairs occur; non-trivial = length >= 2; distribution by length mod 4')
     rng = rng_for(ctx.seed, 'c18-pw')
-    nmax = budget('thorough' if ctx.drift else ctx.tier, 48, 100)
+    nmax = budget('thorough' if ctx.drift else ctx.tier, 64, 100)
     b = Batch(ctx, s)
     for n in range(0, nmax + 1):
         for rep in range(2 if n <= 40 else 1):
@@ -258,7 +257,7 @@ def stream_helpers(ctx, fp):
                   [('_get_padding: not the least admissible size',
                     {'op': 'c18.spec.padding', 'bins': bins, 'size': size, 'r': int(r)}, is_true)])
     # _parallel_iter / _asynchronous_iter
-    ncases = budget('thorough' if ctx.drift else ctx.tier, 250, 1500)
+    ncases = budget('thorough' if ctx.drift else ctx.tier, 600, 1500)
     for _ in range(ncases):
         k = rng.choice([1, 2, 2, 3, 3, 4, 4, 5, 6, 7, 8, 9, 12])
         lmax = rng.choice([1, 2, 2, 3, 3, 4, 5, 6])
@@ -307,8 +306,8 @@ def stream_pws(ctx, fp):
                'twice and every 4 labels have one of their 3 splits co-scheduled; non-trivial = n >= 4')
     rng = rng_for(ctx.seed, 'c18-pws')
     t = 'thorough' if ctx.drift else ctx.tier
-    nmax = budget(t, 26, 48)
-    nspec = budget(t, 18, 30)
+    nmax = budget(t, 32, 48)
+    nspec = budget(t, 20, 30)
     b = Batch(ctx, s)
     for n in range(0, nmax + 1):
         labs = labels_for(rng, n)
@@ -363,7 +362,7 @@ def stream_binned(ctx, fp):
                 orc.append(('symmetric: Spec quadsCovered fails',
                             {'op': 'c18.spec.quads', 'bins': bins, 'ys': impl}, ok_field))
             b.add(case, {'ys': impl, 'ok': True}, {'op': 'c18.pws_symmetric', 'nf': nf, 'ns': ns}, orc)
-    ncases = budget(t, 220, 1500)
+    ncases = budget(t, 600, 1500)
     for _ in range(ncases):
         nb = rng.choice([1, 2, 2, 4, 4, 4, 8, 8, 16])
         mx = rng.choice([1, 2, 3, 4, 5, 7])
@@ -547,7 +546,7 @@ def stream_tpb(ctx, of, qp):
     rng = rng_for(ctx.seed, 'c18-tpb')
     t = 'thorough' if ctx.drift else ctx.tier
     b = Batch(ctx, s)
-    ncases = budget(t, 500, 5000)
+    ncases = budget(t, 1500, 5000)
     for i in range(ncases):
         op = rand_qubit_operator(of, rng)
         seed = rng.choice([None, 0, 1, 2, 3, 7, 11, 12345, rng.randrange(2 ** 31)])
